@@ -222,7 +222,8 @@ Section over.
     destruct Hsw as [Hon Hoff].
     rewrite Hen in En1.
     assert (CASES :
-      (do_enter c s a t0 = s1 /\ hooked c s a = false) \/
+      (hooked c s a = false /\ stack (do_enter c s a t0) = stack s1 /\ ridx (do_enter c s a t0) = ridx s1 /\
+       out (do_enter c s a t0) = out s1 /\ enabled (do_enter c s a t0) = true) \/
       (hooked c s a = true /\ exists fr top, f_depth fr = ridx s /\ f_addr fr = a /\
           (norecord (f_flags fr) = false -> f_start fr = t0) /\
           fresh top fr (ridx s1) (do_enter c s a t0) s1 /\
@@ -232,7 +233,7 @@ Section over.
         match goal with |- context [entry_record c s1 ?fr tr sv] =>
           destruct (entry_record_shape c s1 fr tr sv En1 Hon Hoff) as (top & F & N); exists fr, top end.
         cbn [f_depth f_addr f_start f_flags norecord noflags]. split; [exact Ri1|]. split; [reflexivity|]. split; [first [intros _; reflexivity | intro Q; discriminate Q]|]. split; [exact F|exact N].
-      - left. split; reflexivity.
+      - left. cbn [stack ridx out enabled]. repeat split; try reflexivity. exact En1.
       - right. split; [reflexivity|].
         match goal with |- context [entry_record c s1 ?fr tr sv] =>
           destruct (entry_record_shape c s1 fr tr sv En1 Hon Hoff) as (top & F & N); exists fr, top end.
@@ -242,15 +243,15 @@ Section over.
           destruct (entry_record_shape c s1 fr tr sv En1 Hon Hoff) as (top & F & N); exists fr, top end.
         cbn [f_depth f_addr f_start f_flags norecord]. split; [exact Ri1|]. split; [reflexivity|]. split; [first [intros _; reflexivity | intro Q; discriminate Q]|]. split; [exact F|exact N]. }
     assert (Hop1 : open_frames (stack s1)) by (rewrite St1; exact Hop).
-    destruct CASES as [[Een Hhk] | (Hhk & fr & top & Fd & Fa & Fs & F & Nn)].
+    destruct CASES as [(Hhk & St1' & Ri1' & Ou1' & En1') | (Hhk & fr & top & Fd & Fa & Fs & F & Nn)].
     - (* -pg shape, entry rejected: no frame, no exit hook; the callees run in place *)
-      rewrite Een, Hhk.
-      assert (I1 : Inv s1).
-      { unfold Inv. split; [exact En1|]. split; [exact Hop1|]. unfold idx in *. rewrite St1. intro; lia. }
-      destruct (RK s1 (false :: hk) I1) as (s2 & g & fl & E2 & M2 & A2 & I2).
+      rewrite Hhk. set (s1' := do_enter c s a t0) in *.
+      assert (I1 : Inv s1').
+      { unfold Inv. split; [exact En1'|]. split; [rewrite St1'; exact Hop1|]. unfold idx in *. rewrite St1', St1. intro; lia. }
+      destruct (RK s1' (false :: hk) I1) as (s2 & g & fl & E2 & M2 & A2 & I2).
       unfold exec in E2. rewrite E2. cbn [dstep]. exists s2, g, fl. split; [reflexivity|]. split; [|split; [|exact I2]].
       + rewrite <- (app_nil_r g). apply emb_drop; [exact M2|constructor].
-      + destruct A2 as (I & N & S2 & O2). unfold aftF. rewrite St1, Ri1, Ou1 in *. auto.
+      + destruct A2 as (I & N & S2 & O2). unfold aftF. rewrite St1', Ri1', Ou1', St1, Ri1, Ou1 in *. auto.
     - rewrite Hhk. set (s2 := do_enter c s a t0) in *.
       destruct F as (St2 & Ou2 & En2 & Gh & Wr & Fe & Kind).
       assert (I2 : Inv s2).
